@@ -274,6 +274,29 @@ func pairWalk(orig, dec reflect.Value) string {
 	return walk(orig, dec, "$")
 }
 
+// IntA, IntB, IntC hold interior pointers next to the whole value.
+type IntA struct {
+	First  *zoo.Base
+	Whole  *zoo.Embedded
+	Whole2 *zoo.Embedded
+	First2 *zoo.Base
+	End    int32
+}
+type IntB struct {
+	L   []zoo.Inner
+	P   *zoo.Inner
+	L2  []zoo.Inner
+	P2  *zoo.Inner
+	End int32
+}
+type IntC struct {
+	P   *zoo.Inner
+	L   []zoo.Inner
+	P2  *zoo.Inner
+	L2  []zoo.Inner
+	End int32
+}
+
 func graphCheck(c *core.Ctx, root interface{}, desc, shape string) string {
 	out := graphCheckMaps(c, root, desc, shape, false)
 	if out != "ok" {
@@ -595,6 +618,71 @@ func init() {
 				}
 				c.Cover("gc-during-encode")
 			}})
+			// pointers into the inside of other values of the graph: the first field of a struct and the first
+			// element of a slice have the address of the whole; they are different objects
+			us = append(us, core.Unit{Name: "interior", Cost: 5, Run: func(c *core.Ctx) {
+				for mask := 0; mask < 16; mask++ {
+					for form := 0; form < 3; form++ {
+						if !c.Begin() {
+							continue
+						}
+						c.NontrivialN(1)
+						c.Res.States++
+						e := &zoo.Embedded{Base: zoo.Base{Id: 4, Name: "b"}, X: 5}
+						l := []zoo.Inner{{A: 1, S: "x"}, {A: 2, S: "y"}}
+						var root interface{}
+						switch form {
+						case 0:
+							v := &IntA{End: 3}
+							if mask&1 != 0 {
+								v.First = &e.Base
+							}
+							if mask&2 != 0 {
+								v.Whole = e
+							}
+							if mask&4 != 0 {
+								v.Whole2 = e
+							}
+							if mask&8 != 0 {
+								v.First2 = &e.Base
+							}
+							root = v
+						case 1:
+							v := &IntB{End: 3}
+							if mask&1 != 0 {
+								v.L = l
+							}
+							if mask&2 != 0 {
+								v.P = &l[0]
+							}
+							if mask&4 != 0 {
+								v.L2 = l
+							}
+							if mask&8 != 0 {
+								v.P2 = &l[0]
+							}
+							root = v
+						default:
+							v := &IntC{End: 3}
+							if mask&1 != 0 {
+								v.P = &l[0]
+							}
+							if mask&2 != 0 {
+								v.L = l
+							}
+							if mask&4 != 0 {
+								v.P2 = &l[0]
+							}
+							if mask&8 != 0 {
+								v.L2 = l
+							}
+							root = v
+						}
+						c.Outcome(graphCheck(c, root, fmt.Sprintf("%T with fields %04b set (pointer to the first field / first element next to the whole)", root, mask), "interior"))
+					}
+				}
+				c.Cover("interior")
+			}})
 			us = append(us, core.Unit{Name: "families", Cost: 80, Run: func(c *core.Ctx) {
 				maxN := tierPick(tier, 120, 200)
 				for n := 1; n <= maxN; n++ {
@@ -614,7 +702,7 @@ func init() {
 			return us
 		},
 		RequireCover: func(string) []string {
-			l := []string{"families", "list-map-fields", "gc-during-encode"}
+			l := []string{"families", "interior", "list-map-fields", "gc-during-encode"}
 			for _, f := range fillers() {
 				l = append(l, "filler:"+f.name)
 			}
